@@ -580,6 +580,22 @@ class ModuleNormalizer:
                         loops_inside = any(isinstance(n, (ast.For, ast.While)) and any(isinstance(r, ast.Return) for r in ast.walk(n)) for b_ in hbody for n in ast.walk(b_))
                         if kind == "expr" and isinstance(parent, (ast.For, ast.While)) and field == "body" and i == len(stmts) - 1 and bare and not loops_inside:
                             as_continue = True
+                        elif kind == "expr" and bare and not loops_inside:
+                            # guard clauses of a procedure: `if c: return` / rest  ->  `if c: pass` / `else: rest`
+                            res0 = _stmt_inline(h, mp, caller_names, s)
+                            chain = _returns_to_chain(res0[1], lambda v: [ast.Pass()]) if res0 is not None else None
+                            if chain is None:
+                                i += 1
+                                continue
+                            new = list(res0[0]) + chain
+                            for x in new:
+                                _relocate(x, s)
+                            stmts[i : i + 1] = new
+                            self.log.append(f"{q}: inlined new procedure {h.name} (guard clauses as an if/else chain)")
+                            caller_names |= _names_stored(ast.Module(body=new, type_ignores=[]))
+                            changed = True
+                            i += len(new)
+                            continue
                         elif kind == "assign":
                             res0 = _stmt_inline(h, mp, caller_names, s)
                             chain = _returns_to_chain(res0[1], lambda v, _t=s.targets: [ast.Assign(targets=copy.deepcopy(_t), value=v)]) if res0 is not None else None
